@@ -27,7 +27,7 @@ EXPLANATION = "every invalid class fired in every state of a bounded exhaustive 
 
 
 def bounds(tier, seed):
-    return {"state_depth": 2 if tier == "quick" else 3, "core_ops": len(c09.CORE_OPS), "constructors": len(WO.INITS)}
+    return {"state_depth": 2 if tier == "quick" else 3, "core_ops": len(c09.CORE_OPS), "constructors": 7}
 
 
 def _expect_value_error(fn, key):
@@ -248,7 +248,7 @@ def harnesses(tier, seed):
             ctx.sample({"class": FN_CASES[i][0], "variant": FN_CASES[i][1], "x": list(g)})
 
     def state_body(ctx):
-        ii = ctx.choose(len(WO.INITS), "init")
+        ii = ctx.choose(7, "init")
         r = WO.Runner(WO.INITS[ii])
         done = []
 
